@@ -39,7 +39,8 @@ LEVEL_TEXT = (
     "events of a process pool (all completion orders are reachable: every_permutation_schedulable), "
     "collection by submission index returns exactly map f tasks = the sequential result; with "
     "distinct source x frequency keys the positional store loop puts f(task of k) into slot k "
-    "(survey_slots_any_schedule); file hand-over is transparent when file names are distinct; "
+    "(survey_slots_any_schedule); hand-over file names are distinct for arbitrary string keys "
+    "(file_names_distinct) and file hand-over is then transparent (file_mode_same); "
     "recomputation is idempotent under the solver's restart contract. The collector tags, store-loop "
     "shapes, _srcfreq shape and file-name pattern these theorems are applied to are re-extracted "
     "from emg3d/_multiprocessing.py and emg3d/simulations.py on every run (Gen/MpShape.v); "
@@ -54,8 +55,11 @@ LEVEL_NOTE = (
     "times); the task function is pure; solver restart contract for recompute_idempotent (a solve "
     "started from its own converged result returns it unchanged; measured). The syntactic "
     "extractor (ast patterns in py/props/c11.py) is trusted to classify the call shapes; it fails "
-    "closed. Finding: file names of file_dir mode are not injective for keys containing '_' "
-    "(fname_collision_refuted, reproduced on the implementation).")
+    "closed. History: before the fix the hand-over file names joined the keys with '_' and were "
+    "not injective (fname_unfixed_collision_refuted); the extracted pattern must now be the "
+    "position-based one (mpshape_fname_fixed), for which fname_injective / file_names_distinct "
+    "hold for arbitrary string keys; a stream of surveys with adversarial keys is compared "
+    "bit for bit between file_dir and memory mode.")
 TRUSTED = [
     "ast-based shape extractor gen_mpshape in py/props/c11.py (fails closed: unknown shapes become "
     "COther / false and break process_map_any_config / store_sites_positional)",
